@@ -48,6 +48,7 @@ def run(ctx):
     ctx.do(rule_operator_table)
     ctx.do(rule_timestamp_coercion)
     ctx.do(rule_conjunction)
+    ctx.do(rule_path_steps_guarded)
     ctx.do(rule_optimiser)
     ctx.do(rule_all_answers_filtered)
     ctx.do(rule_filters_only_grow)
@@ -514,6 +515,40 @@ def rule_optimiser(ctx, rule_id="C12.optimiser-table"):
               file=rel, line=q.node.lineno, function="FileSystemSource.query", expected="same `query` passed down and applied by "
               "apply_common_filters in _check_object_from_file", found=found)
     run.floor(R, 10)
+
+
+def rule_path_steps_guarded(ctx, rule_id="C12.conjunction"):
+    """A dotted filter path (`x_info.level`, `external_references.source_name`) is followed by RECURSION: _check_filter calls
+    itself on the value of the first step, or on each element of it.  Those values have any shape (a string, a number, a list
+    of plain values): "the path addresses nothing there" means the filter does not match THAT object -- it must not raise, or
+    one stored object with `x_info: 'n/a'` makes the query fail for all.  Every use of the object parameter as a mapping is
+    preceded by an exit for non-mappings."""
+    run = ctx.run
+    prog = ctx.prog
+    fi = prog.func("stix2.datastore.filters::_check_filter")
+    op = fi.params[1]
+    rec = [c for c in body_walk(fi.node) if isinstance(c, ast.Call) and call_simple_name(c) == fi.name and len(c.args) > 1]
+    if not rec:
+        raise AnalysisError("_check_filter does not follow dotted paths by recursion any more (rule out of date)")
+    derefs = [x for x in body_walk(fi.node) if (isinstance(x, ast.Subscript) and norm(x.value) == op) or (
+        isinstance(x, ast.Attribute) and norm(x.value) == op) or (isinstance(x, ast.Compare) and any(
+            isinstance(o_, (ast.In, ast.NotIn)) and norm(cm) == op for o_, cm in zip(x.ops, x.comparators)))]
+    first = min((x.lineno for x in derefs), default=None)
+    guard = None
+    for st_ in fi.node.body:
+        if isinstance(st_, ast.If) and st_.body and isinstance(st_.body[-1], ast.Return):
+            t = norm(st_.test)
+            if t.startswith("not isinstance(%s," % op) and ("Mapping" in t or "dict" in t):
+                guard = st_
+                break
+    ok = guard is not None and (first is None or guard.lineno < first)
+    run.check(ok, rule_id, key(fi.module.relpath, fi.qualname, "path-steps-into-non-mappings-do-not-match"),
+              "the object parameter is used as a mapping (%s) although the recursion hands it values of any shape: a dotted filter "
+              "meeting a string / number / list of plain values at an inner step raises AttributeError / TypeError instead of not "
+              "matching, and the whole query fails" % ", ".join(sorted({short(x, 30) for x in derefs})[:3]),
+              file=fi.module.relpath, line=first or fi.node.lineno, function=fi.qualname,
+              expected="if not isinstance(%s, collections.abc.Mapping): return False   before any use" % op,
+              found="no such exit" if guard is None else "after a use")
 
 
 def rule_filters_only_grow(ctx):
